@@ -923,13 +923,14 @@ class _function(object):
 
         f = _function()
 
-        if len(self._constant) != 1 or self._constant[0]:
+        if len(self._constant) != 1 or self._constant[0] or \
+            not self._linear._coeff:
             if 1 == len(self._constant) != lg: 
                 f._constant = +self._constant
             else: 
                 f._constant = self._constant[l]
 
-        if self._linear:
+        if self._linear._coeff:
             if 1 == len(self._linear) != lg: 
                 f._linear = +self._linear
             else: 
